@@ -85,13 +85,15 @@ func TestVerifC04Cuts(t *testing.T) {
 	r := rand.New(rand.NewSource(int64(vC04EnvInt("VERIF_SEED", 1)) + 4041))
 	n := vC04EnvInt("VERIF_N", 600)
 	for c := 0; c < n; c++ {
-		switch c % 3 {
+		switch c % 4 {
 		case 0:
 			vC04CaseProofExp(out, r)
 		case 1:
 			vC04CaseCut(out, r)
 		case 2:
 			vC04CaseProofServe(out, r)
+		case 3:
+			vC04CaseProofHist(out, r)
 		}
 	}
 }
@@ -330,4 +332,181 @@ func vC04CaseProofServe(out *vC04Out, r *rand.Rand) {
 	out.emit(map[string]any{"k": "proof-serve", "nontrivial": true, "go_fail": fail,
 		"coq":  fmt.Sprintf("CProofServe %d [%s]%%Z %d %s %s", soaExp, strings.Join(pieces, "; "), cur.UnixNano(), vC04Z(ttl), eo),
 		"desc": map[string]any{"served": ok, "ttl": ttl, "earliest_in_ns": minExp - cur.UnixNano()}})
+}
+
+// several proofs admitted into ONE signer zone across clock steps, with
+// differing SOA negative TTLs, NSEC TTLs, signature windows and leases; every
+// synthesised denial is judged against the end of the admission each of its
+// pieces arrived in. Zone layout (canonical order): apex < a < c < m < p < z.
+//   proof A denies c.<zone>: NSEC a->m (owner 1) + apex->a (owner 0, wildcard)
+//   proof B denies p.<zone>: NSEC m->z (owner 2) + apex->a (owner 0, wildcard)
+// Both carry the zone's SOA; a later admission replaces the SOA entry and the
+// sets it carries, nothing else.
+func vC04CaseProofHist(out *vC04Out, r *rand.Rand) {
+	base := time.Unix(int64(1790000000+r.Intn(100000)), int64(r.Intn(1000000000)))
+	cur := base
+	maxTTL := []time.Duration{3 * time.Hour, 3 * time.Hour, 90 * time.Second, 24 * time.Hour}[r.Intn(4)]
+	cache := newDenialProofCacheWithConfig(denialProofCacheConfig{
+		MaxEntries: 64, MaxEntriesPerZone: 32, MaxBytes: denialProofDerivedBytes(64), MaxBytesPerZone: denialProofDerivedBytes(32),
+		MaxTTL: maxTTL, Now: func() time.Time { return cur },
+	})
+	zone := "c04hist.test."
+	ownerID := map[string]int{zone: 0, "a." + zone: 1, "m." + zone: 2}
+	negTTLs := []uint32{20, 30, 60, 120, 3600}
+	setTTLs := []uint32{15, 60, 300, 3600, 86400}
+	build := func(which int) (*dns.Msg, string) {
+		denied, owner, next := "c."+zone, "a."+zone, "m."+zone
+		if which == 1 {
+			denied, owner, next = "p."+zone, "m."+zone, "z."+zone
+		}
+		exp := func() int64 {
+			if r.Intn(5) == 0 {
+				return cur.Unix() + int64(10+r.Intn(200))
+			}
+			return cur.Unix() + 7200 + int64(r.Intn(100000))
+		}
+		sig := func(o string, covered uint16, ttl uint32) *dns.RRSIG {
+			s := vC04Sig(o, covered, ttl, exp(), zone)
+			if r.Intn(4) == 0 {
+				s.OrigTtl = setTTLs[r.Intn(len(setTTLs))]
+			}
+			return s
+		}
+		soaTTL, soaMin := negTTLs[r.Intn(len(negTTLs))], negTTLs[r.Intn(len(negTTLs))]
+		t1, t0 := setTTLs[r.Intn(len(setTTLs))], setTTLs[r.Intn(len(setTTLs))]
+		m := new(dns.Msg)
+		m.SetQuestion(denied, dns.TypeA)
+		m.Response = true
+		m.Rcode = dns.RcodeNameError
+		m.AuthenticatedData = true
+		m.Ns = []dns.RR{
+			vC04SOA(zone, soaTTL, soaMin),
+			sig(zone, dns.TypeSOA, soaTTL),
+			&dns.NSEC{Hdr: dns.RR_Header{Name: owner, Rrtype: dns.TypeNSEC, Class: dns.ClassINET, Ttl: t1}, NextDomain: next, TypeBitMap: []uint16{dns.TypeA, dns.TypeRRSIG, dns.TypeNSEC}},
+			sig(owner, dns.TypeNSEC, t1),
+			&dns.NSEC{Hdr: dns.RR_Header{Name: zone, Rrtype: dns.TypeNSEC, Class: dns.ClassINET, Ttl: t0}, NextDomain: "a." + zone, TypeBitMap: []uint16{dns.TypeNS, dns.TypeSOA, dns.TypeRRSIG, dns.TypeNSEC, dns.TypeDNSKEY}},
+			sig(zone, dns.TypeNSEC, t0),
+		}
+		return m, owner
+	}
+	var steps, desc []string
+	fail := ""
+	// Go-side oracle: per owner, the end of the admission that last carried it
+	endOf := map[int]int64{}
+	soaEnd := int64(0)
+	plainEnd := func(now time.Time, cut time.Time, rrs []dns.RR) int64 {
+		life := int64(3 * time.Hour)
+		if maxTTL > 0 && int64(maxTTL) < life {
+			life = int64(maxTTL)
+		}
+		low := func(x int64) {
+			if x < life {
+				life = x
+			}
+		}
+		for _, rr := range rrs {
+			low(int64(rr.Header().Ttl) * int64(time.Second))
+			switch x := rr.(type) {
+			case *dns.SOA:
+				low(int64(x.Minttl) * int64(time.Second))
+			case *dns.RRSIG:
+				low(int64(x.OrigTtl) * int64(time.Second))
+				low(int64(x.Expiration)*int64(time.Second) - now.UnixNano())
+			}
+		}
+		if !cut.IsZero() {
+			low(cut.UnixNano() - now.UnixNano())
+		}
+		return now.UnixNano() + life
+	}
+	admit := func() {
+		which := r.Intn(2)
+		m, owner := build(which)
+		var cut time.Time
+		if r.Intn(4) == 0 {
+			cut = cur.Add(time.Duration(5+r.Intn(300)) * time.Second)
+		}
+		ok := cache.recordWithKind(m, zone, denialProofNSEC, cut)
+		common := m.Ns[0:2]
+		set1, set0 := m.Ns[2:4], m.Ns[4:6]
+		steps = append(steps, fmt.Sprintf("PAdm %d %s %s [mk_pset %d %s; mk_pset 0 %s] %v", cur.UnixNano(), vC04OZ(!cut.IsZero(), cut.UnixNano()),
+			vC04PRRs(common), ownerID[owner], vC04PRRs(set1), vC04PRRs(set0), ok))
+		desc = append(desc, fmt.Sprintf("t0+%v admit proof %c soa=%d/%d sets=%d/%d cut=%v -> %v", cur.Sub(base), 'A'+rune(which),
+			m.Ns[0].Header().Ttl, m.Ns[0].(*dns.SOA).Minttl, set1[0].Header().Ttl, set0[0].Header().Ttl, !cut.IsZero(), ok))
+		if ok {
+			soaEnd = plainEnd(cur, cut, common)
+			endOf[ownerID[owner]] = plainEnd(cur, cut, append(append([]dns.RR{}, common...), set1...))
+			endOf[0] = plainEnd(cur, cut, append(append([]dns.RR{}, common...), set0...))
+		}
+	}
+	lookup := func() {
+		which := r.Intn(2)
+		qname, needed := "C."+zone, []int{1, 0}
+		if which == 1 {
+			qname, needed = "p."+zone, []int{2, 0}
+		}
+		req := new(dns.Msg)
+		req.SetQuestion(qname, dns.TypeA)
+		req.SetEdns0(1232, true)
+		msg, _, _, expires, ok := cache.lookupWithMeta(req, nil)
+		ttl, eo := int64(-1), "None"
+		if ok {
+			tt := vC04ReplyTTLs(msg)
+			ttl = int64(tt[0])
+			for _, x := range tt {
+				if int64(x) != ttl {
+					fail = "records of one synthesized denial carry different TTLs"
+				}
+			}
+			eo = fmt.Sprintf("(sz %d)", expires.UnixNano())
+			var owners []int
+			for _, rr := range msg.Ns {
+				if rr.Header().Rrtype == dns.TypeNSEC {
+					owners = append(owners, ownerID[strings.ToLower(rr.Header().Name)])
+				}
+			}
+			if len(owners) != 2 || !((owners[0] == needed[0] && owners[1] == needed[1]) || (owners[0] == needed[1] && owners[1] == needed[0])) {
+				fail = fmt.Sprintf("unexpected proof shape for %s: NSEC owners %v", qname, owners)
+			}
+			nowNs := cur.UnixNano()
+			for _, e := range []int64{soaEnd, endOf[needed[0]], endOf[needed[1]]} {
+				if nowNs >= e {
+					fail = fmt.Sprintf("%s denied %v after the end of the admission one of its pieces arrived in", qname, time.Duration(nowNs-e))
+				} else if ttl*int64(time.Second) > e-nowNs {
+					fail = fmt.Sprintf("synthesised TTL %ds exceeds the %v left of the admission one of its pieces arrived in", ttl, time.Duration(e-nowNs))
+				}
+			}
+		}
+		steps = append(steps, fmt.Sprintf("PLook %d [%d; %d]%%N %s %s", cur.UnixNano(), needed[0], needed[1], vC04Z(ttl), eo))
+		desc = append(desc, fmt.Sprintf("t0+%v lookup %s -> served=%v ttl=%d", cur.Sub(base), qname, ok, ttl))
+	}
+	step := func() {
+		// stride, or to just before / at / after the end of some live piece
+		var ends []int64
+		for _, e := range cache.byID {
+			ends = append(ends, e.expires.UnixNano())
+		}
+		if len(ends) > 0 && r.Intn(2) == 0 {
+			t := ends[r.Intn(len(ends))] + []int64{-int64(time.Second) - 1, -1, 0, 1, int64(3 * time.Second)}[r.Intn(5)]
+			if t > cur.UnixNano() {
+				cur = time.Unix(0, t)
+				return
+			}
+		}
+		cur = cur.Add([]time.Duration{time.Second, 10 * time.Second, 25 * time.Second, 50 * time.Second, 61 * time.Second, 5 * time.Minute}[r.Intn(6)])
+	}
+	admit()
+	for i, n := 0, 5+r.Intn(8); i < n; i++ {
+		switch x := r.Intn(10); {
+		case x < 3:
+			admit()
+		case x < 6:
+			step()
+		default:
+			lookup()
+		}
+	}
+	lookup()
+	out.emit(map[string]any{"k": "proof-history", "nontrivial": true, "go_fail": fail,
+		"coq": fmt.Sprintf("CProofHist %s [%s]", vC04Z(int64(maxTTL)), strings.Join(steps, "; ")), "desc": desc})
 }
